@@ -5,6 +5,7 @@ import (
 	"fmt"
 	"github.com/aml-org/amf-custom-validator/internal/misc"
 	"github.com/aml-org/amf-custom-validator/internal/parser/profile"
+	"strings"
 )
 
 func GeneratePattern(pattern profile.PatternRule, iriExpander *misc.IriExpander) []SimpleRegoResult {
@@ -16,10 +17,15 @@ func GeneratePattern(pattern profile.PatternRule, iriExpander *misc.IriExpander)
 	rego = append(rego, fmt.Sprintf("%s_array = %s with data.sourceNode as %s", checkVariable, pathResult.rule, pattern.Variable.Name))
 	rego = append(rego, fmt.Sprintf("%s = %s_array[_]", checkVariable, checkVariable))
 	// Add the validation
+	// a raw string cannot hold a backtick: such a pattern is written as an escaped string literal instead
+	patternLiteral := fmt.Sprintf("`%s`", pattern.Argument)
+	if strings.Contains(pattern.Argument, "`") {
+		patternLiteral = misc.RegoString(pattern.Argument)
+	}
 	if pattern.Negated {
-		rego = append(rego, fmt.Sprintf("regex.match(`%s`,%s)", pattern.Argument, checkVariable))
+		rego = append(rego, fmt.Sprintf("regex.match(%s,%s)", patternLiteral, checkVariable))
 	} else {
-		rego = append(rego, fmt.Sprintf("not regex.match(`%s`,%s)", pattern.Argument, checkVariable))
+		rego = append(rego, fmt.Sprintf("not regex.match(%s,%s)", patternLiteral, checkVariable))
 	}
 
 	tracePath, err := pattern.Path.Trace(iriExpander)
